@@ -29,6 +29,8 @@ func mustPass(fn *ssa.Function, pred func(ssa.Instruction) bool) bool {
 }
 
 func checkC06(c *Ctx) {
+	c.Rule("R6.8", "ioCore.Write: an accepted entry above ErrorLevel is synced before returning; no failure of Write's own making in front of the sync", 1)
+	c6CrashSync(c, "R6.8")
 	c.Rule("R6.1", "Logger.check attaches the terminal hook unconditionally for Panic/Fatal (DPanic iff development), after the only legal early return", 12)
 	c.Rule("R6.2", "every front-end entry routes its level constant to the checking helper and reaches CheckedEntry.Write unless ce == nil", 50)
 	c.Rule("R6.3", "CheckedEntry.Write: all cores, then the hook, then recycle", 3)
@@ -1046,4 +1048,95 @@ func dynFuncCall(fn *ssa.Function) *ssa.Call {
 		return nil
 	}
 	return out
+}
+
+// c6CrashSync: ioCore.Write, explored for each level with the outcomes of encoding and of the sink's Write forked: an
+// entry above ErrorLevel that the sink accepted without error is followed by a Sync before Write returns, and nil is
+// returned exactly when encoding and the sink reported no error - Write invents no failure of its own in front of
+// the sync (a sink that reports a short count without an error must not cost a Fatal entry its flush).
+func c6CrashSync(c *Ctx, rule string) {
+	fn := c.Method(CorePath, "ioCore", "Write")
+	if !c.Anchor(rule, "zapcore.ioCore.Write", fn != nil && len(fn.Params) == 3) {
+		return
+	}
+	entN := fn.Params[1].Name()
+	errLvl, _ := c.ConstVal(CorePath, "ErrorLevel")
+	var bad []string
+	n := 0
+	for lv := int64(-1); lv <= 5; lv++ {
+		l0 := lv
+		seqs, trunc := ConcPaths(fn, ConcCfg{
+			Conc: func(d string) (int64, bool) {
+				if d == entN+".Level" {
+					return l0, true
+				}
+				return 0, false
+			},
+			Fork: func(in ssa.Instruction, st *ConcState) []ConcAlt {
+				ex, ok := in.(*ssa.Extract)
+				if !ok || ex.Index != 1 {
+					return nil
+				}
+				cl, ok := ex.Tuple.(*ssa.Call)
+				if !ok || !cl.Call.IsInvoke() {
+					return nil
+				}
+				switch cl.Call.Method.Name() {
+				case "EncodeEntry":
+					return []ConcAlt{{Ev: "encode-ok", Nils: map[ssa.Value]bool{ex: true}}, {Ev: "encode-failed", Nils: map[ssa.Value]bool{ex: false}}}
+				case "Write":
+					return []ConcAlt{{Ev: "sink-ok", Nils: map[ssa.Value]bool{ex: true}}, {Ev: "sink-failed", Nils: map[ssa.Value]bool{ex: false}}}
+				}
+				return nil
+			},
+			Event: func(in ssa.Instruction, st *ConcState) string {
+				switch x := in.(type) {
+				case *ssa.Call:
+					if x.Call.IsInvoke() && x.Call.Method.Name() == "Sync" || IsCallTo(x, "(*go.uber.org/zap/zapcore.ioCore).Sync") {
+						return "sync"
+					}
+				case *ssa.Return:
+					if nl, known := st.IsNil(x.Results[0]); known {
+						return map[bool]string{true: "ret-nil", false: "ret-err"}[nl]
+					}
+					return "ret-?"
+				}
+				return ""
+			},
+			Inline: func(h *ssa.Function) bool { return h.Name() != "Sync" },
+		})
+		if trunc || len(seqs) == 0 {
+			c.Und(rule, fn.String(), "crash-sync", fn.Pos(), "path exploration incomplete")
+			return
+		}
+		for _, sq := range seqs {
+			n++
+			toks := strings.Split(sq, " ; ")
+			has := map[string]bool{}
+			for _, t := range toks {
+				has[t] = true
+			}
+			last := toks[len(toks)-1]
+			tag := "level " + itoa(int(l0)) + ": " + sq
+			switch {
+			case has["encode-failed"] || has["sink-failed"]:
+				if last != "ret-err" {
+					bad = append(bad, "a reported failure is not returned: "+tag)
+				}
+			case has["encode-ok"] && has["sink-ok"]:
+				if last != "ret-nil" {
+					bad = append(bad, "an error is returned although neither the encoder nor the sink reported one: "+tag)
+				}
+				if l0 > errLvl && !has["sync"] {
+					bad = append(bad, "an entry above ErrorLevel is not synced: "+tag)
+				}
+			default:
+				bad = append(bad, "neither encoded nor written: "+tag)
+			}
+		}
+	}
+	if len(bad) > 3 {
+		bad = append(bad[:3:3], "… "+itoa(len(bad)-3)+" more")
+	}
+	c.Check(len(bad) == 0 && n >= 14, rule, fn.String(), "crash-sync", fn.Pos(), "over %d paths (levels -1..5, encoder and sink outcomes forked): nil is returned exactly when neither reported an error, and an accepted entry above ErrorLevel is synced before Write returns: %v", n, bad)
 }
